@@ -12,6 +12,9 @@
     pbkdf2v <sha512|sha256|sha1> <pass> <salt> <iterations> k n…  -> k bytes… | REJECT  (vendored PBKDF2, consecutive reads)
     rfc2898 <sha512|sha256|sha1> <pass> <salt> <iterations> <dkLen> -> bytes     (Buidl.Hash.pbkdf2, the RFC text)
     utf8 <str>                          -> bytes | REJECT
+    contains <bip39|slip39> <str>       -> 1 | 0                  (`str in WordList`)
+    pbkdf2ops <sha…> <pass> <salt> <iterations> k op…  -> k answers | REJECT   (ONE object; op = `r<n>` read(n),
+                                           `h<n>` hexread(n), `c` close(); answers: bytes, string, `ok`, `RAISED`)
 -/
 import Buidl.Drv.Proto
 import Buidl.Model.Mnemonic
@@ -101,6 +104,32 @@ def handle : List String → String
       let n ← parseNat n
       if c = 0 then none else
       pure (fmtBytes (Hash.pbkdf2 (fun k m => (prf k m).1) (prf [] []).2 p s c n))
+  | ["contains", wl, s] => optS do
+      let wl ← wlOf wl
+      let s ← parsePy s
+      pure (fmtBool (wl.contains s))
+  | "pbkdf2ops" :: h :: p :: s :: c :: k :: ops => optS do
+      let prf ← prfOf h
+      let p ← parseBytes p
+      let s ← parseBytes s
+      let c ← parseNat c
+      let k ← parseNat k
+      if ops.length ≠ k then none else
+      let ops ← ops.mapM fun t =>
+        match t.toList with
+        | ['c'] => some PbOp.close
+        | 'r' :: n => (parseNat (String.ofList n)).map PbOp.read
+        | 'h' :: n => (parseNat (String.ofList n)).map PbOp.hexread
+        | _ => none
+      pure <| orReject do
+        let st ← PBKDF2.new p s c
+        let outs := PBKDF2.run (fun k m => (prf k m).1) (some st) ops
+        pure (String.intercalate " " (toString outs.length :: outs.map fun o =>
+          match o with
+          | .bytes b => fmtBytes b
+          | .hex h => fmtPy h
+          | .unit => "ok"
+          | .raised => "RAISED"))
   | ["utf8", s] => optS do
       let s ← parsePy s
       pure (orReject ((utf8Encode s).map fmtBytes))
